@@ -52,6 +52,12 @@ def render_case(case: dict, status=None) -> str:
 def line_of_item(case: dict, status, ident: str):
     """1-based line number of the instruction with the given id in the rendered text."""
     text = render_case(case, status)
+    for ph in INSTR_PHASES:
+        for it in case.get(ph) or []:
+            if it.get('id') == ident and it['k'] == 'real':
+                for n, line in enumerate(text.split('\n'), 1):
+                    if line == it['text']:
+                        return n
     for n, line in enumerate(text.split('\n'), 1):
         parts = line.split()
         if len(parts) >= 2 and parts[-1] == ident and parts[0] in ('sim-fault', '%', '$', 'run'):
